@@ -216,7 +216,7 @@ class Program:
         self._load()
         self._link()
         if normalise:
-            from .inline import _logger_names, normalise_walrus, normalise_match, normalise_dict_union, normalise_first_match, normalise_generator_functions, normalise_unzip_loops, normalise_accumulators, normalise_conditional_assignments, normalise_generator_arguments, normalise_ifexp, normalise_keys, normalise_suppress, strip_logging
+            from .inline import _logger_names, normalise_self_conditional, normalise_walrus, normalise_match, normalise_dict_union, normalise_first_match, normalise_generator_functions, normalise_unzip_loops, normalise_accumulators, normalise_conditional_assignments, normalise_generator_arguments, normalise_ifexp, normalise_keys, normalise_suppress, strip_logging
             loggers = {m.name: _logger_names(m.tree, m.resolve) for m in self.modules.values()}
             for fi in self.functions.values():
                 if fi.parent is None:
@@ -232,6 +232,7 @@ class Program:
                     normalise_accumulators(fi.node)
                     normalise_conditional_assignments(fi.node)
                     normalise_ifexp(fi.node)
+                    normalise_self_conditional(fi.node)
                     normalise_generator_arguments(fi.node)
             from .inline import Inliner, load_reference, normalise_compiled_patterns, normalise_literal_loops, normalise_module_constants, normalise_small_quantifiers
             ref = load_reference()
